@@ -467,16 +467,22 @@ def _strip_cc(e, bad):
 
 
 def _break_cc_cycles(d):
-    """drop the optional '#o' decorations that would create a reference cycle"""
-    graph = {c.id: _refs_cc(c.expr) for c in d.cells}
-    pure_cc = {c.id for c in d.cells if c.expr[0] == 'cc' or (c.expr[0] == 'i' and not D.expr_leaves(c.expr))}
+    """keep '#o' references acyclic: a cell may only refer to cells of lower rank in a random order
+    (nested chains '#a' → '#b' → … stay); the cell written purely as complements of all the others
+    ranks last"""
+    pure_cc = [c.id for c in d.cells if not D.expr_leaves(c.expr)]
+    ids = [c.id for c in d.cells if c.id not in pure_cc]
+    import random as _r
+    rr = _r.Random(sum(ids) * 7919 + len(ids))
+    rr.shuffle(ids)
+    rank = {cid: i for i, cid in enumerate(ids + pure_cc)}
     for c in d.cells:
-        if c.id in pure_cc:
-            continue
-        bad = {o for o in graph[c.id] if o in pure_cc or graph.get(o)}
+        bad = {o for o in _refs_cc(c.expr) if rank.get(o, 1 << 30) >= rank[c.id]}
         if bad:
-            c.expr = _strip_cc(c.expr, bad)
-            graph[c.id] = _refs_cc(c.expr)
+            e = _strip_cc(c.expr, bad)
+            if e is None:      # cannot happen for cells that have surface leaves
+                e = c.expr
+            c.expr = e
 
 
 def sample_points(rng, n, box=9.0):
